@@ -298,6 +298,7 @@ def release_and_overrides(ctx):
     ob7 = ctx.ob("C04.7", "traffic resumes after every sequence: wherever the refresher raises cmd.last (end of the sequence) it drops cmd.valid in the "
                           "same step - all exits agree (sibling consistency); otherwise the bank machines still see the request for one cycle, grant again, "
                           "and the multiplexer re-enters its refresh state with nobody left to release it", 2)
+    ob9 = ctx.ob("C04.9", "each refresher state that is entered by starting a sequencer / executer is left only on that same block's done", 2)
     ob8 = ctx.ob("C04.8", "the executers share the command registers under last-assignment-wins: no executer places an UNCONDITIONAL default "
                           "assignment to cmd.a/ba/ras/cas/we after another executer's timeline (it would override that executer's commands every cycle)", 5)
     for zq in (False, True):
@@ -318,6 +319,25 @@ def release_and_overrides(ctx):
                 ob7.refute("last-without-release:%s" % l.state, "state %s raises cmd.last under %s but keeps cmd.valid (= refresh_req of every bank machine) high in "
                            "that cycle, unlike the other exits: the bank machines grant once more and the multiplexer re-enters its refresh state while the "
                            "refresher is already idle - traffic stalls until the next refresh" % (l.state, sorted(g)), l.loc)
+        # every state entered by starting an executer / sequencer waits for THAT block's done
+        started_by = {}
+        for l in r.fsm_leaves(f):
+            if l.kind == "assign" and is1(l.value) and key(l.target).endswith(".start"):
+                blk = key(l.target)[:-len(".start")]
+                g = r.guard_keys(l, False)
+                for e in r.fsm_leaves(f, l.state):
+                    if e.kind == "next" and isinstance(e.value, Const) and r.guard_keys(e, False) == g:
+                        started_by.setdefault(e.value.v, set()).add(blk)
+        for st_, blks in sorted(started_by.items()):
+            exits = [e for e in r.fsm_leaves(f, st_) if e.kind == "next"]
+            for e in exits:
+                g = r.guard_keys(e, False)
+                dones = {k_[:-len(".done")] for k_ in g if k_.endswith(".done")}
+                ob9.instance("zqcs=%s state %s (started %s) exit to %s" % (zq, st_, sorted(blks), e.value.v if isinstance(e.value, Const) else "?"), sorted(g))
+                if not dones & blks:
+                    ob9.refute("waits-for-wrong-done:%s" % "+".join(sorted(blks)), "state %s is entered by starting %s but is left under %s, which does not contain %s.done: the block "
+                               "it waits for is idle, the state is never left, refresh_req stays high and the multiplexer never leaves its refresh state" %
+                               (st_, sorted(blks), sorted(g), "/".join(sorted(blks))), e.loc)
         if not zq:
             continue
         # C04.8
